@@ -73,6 +73,10 @@ CHECKS = {
             "DESIGN.md 3/C13",
             "Generated (data, options) compressed 2-4 times: different write partitions (LZMA, LZIP, MT writers; LZMA2/XZ without chunk/block size), different heap histories with fresh memory filled with 0xA5 and freed memory with 0x5A, worker counts 1-6, and in the scheduler build 20 seeded schedules per case; all outputs must be byte-identical and MT output must equal the concatenation of the single-threaded encodings of the fixed-size units.",
             "Three builds share the check (checked, release on real threads; scheduler build for schedules); sequentially consistent scheduler."),
+    "C14": ("exploration", "differential property testing across four feature builds (std/no_std x optimization on/off) of a worker crate; seeded case list from the proptest strategies, transcripts compared line by line, normalisation against max(p-offset,0)",
+            "DESIGN.md 3/C14",
+            "A seeded case list (encoder runs with position bias / window moves / long matches, decoder runs over damaged and shortened streams, i32 normalisation arrays) is run through four builds of /verif/featx; compressed bytes (size+hash), decoded bytes (count+hash) and error class must be identical in all four, and normalize_scalar == normalize dispatch == max(p - offset, 0).",
+            "x86_64 only: the aarch64 assembly / NEON paths are not compiled here. Cases are generated, not shrunk (the failing case is already a single small input)."),
     "C17": ("exploration", "property-based testing with an accounting global allocator as measuring oracle",
             "DESIGN.md 3/C17",
             "Generated (dict_size, lc, lp, mode, match finder, nice_len) vectors: the peak heap measured by the harness's accounting allocator while constructing and running LZMA2Writer / LZMAWriter / LZMAReader / LZMA2Reader must be <= the estimator's figure, and the figure <= 3 x peak + 512 KiB; LZMAReader::new_mem_limit must refuse with OutOfMemory iff limit < need, before allocating 64 KiB; estimator-only evaluation up to 768 MiB against the harness's closed form of the allocations.",
@@ -99,7 +103,7 @@ def main():
                 "thorough_cmd": f"./check {pid} thorough",
                 "evidence_file": f"evidence/{pid}.json",
                 "replay_cmd_template": "./check replay {path}",
-                "engine": "lzv-mt" if pid in ("C08","C09","C10") else ("lzv + lzv-mt" if pid == "C13" else "lzv"),
+                "engine": "featx" if pid == "C14" else "lzv-mt" if pid in ("C08","C09","C10") else ("lzv + lzv-mt" if pid == "C13" else "lzv"),
                 "level_claimed": {"category": level, "text": text, "design_ref": ref},
                 "level_note": note,
                 "technique": tech,
@@ -119,6 +123,10 @@ def main():
         "engines": [
             {"name": "lzv", "path": "harness/", "serves_properties": sorted(CHECKS.keys()),
              "kind_free_text": "Rust binary: proptest strategies + shrinking per case, deterministic seeds, 16 shard processes, liblzma as reference, own format walkers, accounting/fence allocator, fault-injecting I/O"},
+            {"name": "lzv-mt", "path": "harness/", "serves_properties": ["C08", "C09", "C10", "C13"],
+             "kind_free_text": "the same binary built with --cfg lzma_rust2_verif_shuttle: the crate's std::sync / std::thread are replaced by shuttle, schedules are drawn by seeded Random / PCT / RoundRobin / DFS schedulers"},
+            {"name": "featx", "path": "featx/", "serves_properties": ["C14"],
+             "kind_free_text": "no_std-capable worker crate built four times (std/no_std x optimization on/off); executes the case list produced by `lzv c14gen` and prints one transcript line per case; the driver compares the four transcripts"},
         ],
         "checks": checks,
         "not_applicable": na,
